@@ -158,11 +158,13 @@ def witnesses(tier="quick", seed=0):
             alone = A.rtf_encode()
             B.rtf_encode()
 
-            def run(k):
+            def run(k, record=None):
                 cnt = {"n": 0, "fired": False}
 
                 def prof(frame, event, arg):
                     if event == "call" and pkg in frame.f_code.co_filename:
+                        if record is not None:
+                            record.append((frame.f_code.co_filename, frame.f_code.co_firstlineno))
                         if cnt["n"] == k and not cnt["fired"]:
                             cnt["fired"] = True
                             _sys.setprofile(None)
@@ -182,12 +184,20 @@ def witnesses(tier="quick", seed=0):
                 finally:
                     _sys.setprofile(None)
                 return out, cnt["n"]
-            _, total = run(-1)
-            budget = 160 if tier == "quick" else 10 ** 9          # thorough: every boundary
-            step = max(1, total // budget)
-            start = seed % step
+            trace = []
+            _, total = run(-1, trace)
+            if tier == "quick":
+                # every distinct callee (call site of the package) at its first and its last instance, plus a seeded stride
+                first, last = {}, {}
+                for i, key in enumerate(trace):
+                    first.setdefault(key, i)
+                    last[key] = i
+                step = max(1, total // 60)
+                ks = sorted(set(first.values()) | set(last.values()) | set(range(seed % step, total, step)))
+            else:
+                ks = list(range(total))
             boundaries_checked = 0
-            for k in range(start, total, step):
+            for k in ks:
                 got, _n = run(k)
                 n += 1
                 boundaries_checked += 1
@@ -196,6 +206,7 @@ def witnesses(tier="quick", seed=0):
                                  "verdict": "thread A's document differs from its sequential result when stopped before its %d-th "
                                             "call into rtflite: %s" % (k, got[:120] if isinstance(got, str) and got.startswith("raised") else "other output")})
                     break
+            step = 1 if tier != "quick" else "distinct callees (first+last instance) + stride"
             if len(samples) < 6:
                 samples.append({"A": ka, "B": kb, "call_boundaries_in_A": total, "boundaries_checked": boundaries_checked, "stride": step})
         # genuinely concurrent smoke run
